@@ -277,6 +277,16 @@ theorem singleton_order_independent {α : Type} (l₁ l₂ : List α) (h : l₁.
   | [a], l₂, _, h => exact (perm_singleton.mp h.symm).symm
   | _ :: _ :: _, _, h1, _ => simp at h1
 
+/-- GENERAL (every entry contributes the SAME message): a list of identical messages
+appended in map order is the same list in every order (`Modifiers.compile`: the message
+names the call, not the binding). -/
+theorem identicalMessages_order_independent {α : Type} (c : α) (l₁ l₂ : List α) (h : l₁.Perm l₂)
+    (hc : ∀ x ∈ l₁, x = c) : l₁ = l₂ := by
+  have h1 : l₁ = List.replicate l₁.length c := List.eq_replicate_iff.mpr ⟨rfl, hc⟩
+  have h2 : l₂ = List.replicate l₂.length c :=
+    List.eq_replicate_iff.mpr ⟨rfl, fun x hx => hc x (h.mem_iff.mpr hx)⟩
+  rw [h1, h2, h.length_eq]
+
 /-- GENERAL (take the first entry met, all entries agree on what is used of them):
 `for _, e := range m { return g(e) }` does not depend on the order when `g` is the
 same for every entry (`Ast.format`: every file leads to the same top-level file). -/
